@@ -1,7 +1,7 @@
 """C09 Single-block AES-128 equals FIPS-197 for every key/block; decryption inverts it."""
 from . import aes_rules
 LEVEL = 'proof'
-RULES = ('R09.a', 'R09.k', 'R09.e', 'R09.d', 'R09.t', 'R09.o', 'R09.m', 'R02.d', 'R03.c')
+RULES = ('R09.a', 'R09.k', 'R09.e', 'R09.d', 'R09.t', 'R09.o', 'R09.m', 'R09.s', 'R02.d', 'R03.c')
 
 
 def run(prog, rec, tier):
@@ -14,6 +14,8 @@ def run(prog, rec, tier):
     A.stateless('dec')
     A.key_load()
     A.ownership()
+    from . import static_rules
+    static_rules.scoped_statics(prog, rec, 'R09.s', 'R09.s@kernel/multi_aes/aes::objects-share-no-state', ('kernel/multi_aes/aes',), 'the block / mode code')
     # the block functions work in per-object scratch: the claim holds for an object only while one thread at a time uses it.
     # Each worker gets its own stream object (R02.d, for every T) and two streams share no mutable storage (R03.c).
     from .driver_rules import DriverRules
